@@ -246,6 +246,23 @@ func testdataProgs(emit func(progenum.Prog)) {
 
 // mutantProgs emits every 1-deviation mutant of every testdata file (ops nil = all operators).
 func mutantProgs(ops map[string]bool, only func(name string) bool) func(emit func(progenum.Prog)) {
+	return mutantProgsN(1, ops, only, 0)
+}
+
+// mutantPairProgs emits every 2-deviation mutant within the locality bound of progenum.MutantPairs
+// (both sites in the same top-level declaration, disjoint edits).
+func mutantPairProgs(ops map[string]bool, maxLines int, only func(name string) bool) func(emit func(progenum.Prog)) {
+	return mutantProgsN(2, ops, only, maxLines)
+}
+
+func mutantProgsN(dev int, ops map[string]bool, only func(name string) bool, maxLines int) func(emit func(progenum.Prog)) {
+	enum, idp, famp := progenum.Mutants, "mutant", "mutant:"
+	if dev == 2 {
+		enum = func(filename, src string, ops map[string]bool) []progenum.Mutant {
+			return progenum.MutantPairs(filename, src, ops, maxLines)
+		}
+		idp, famp = "mutant2", "mutant2:"
+	}
 	return func(emit func(progenum.Prog)) {
 		for _, name := range harness.TestdataNames() {
 			if only != nil && !only(name) {
@@ -263,7 +280,7 @@ func mutantProgs(ops map[string]bool, only func(name string) bool) func(emit fun
 			for _, k := range keys {
 				files := groups[k]
 				for fi, f := range files {
-					for mi, m := range progenum.Mutants(f.Name, f.Src, ops) {
+					for mi, m := range enum(f.Name, f.Src, ops) {
 						nf := make([]harness.File, len(files), len(files)+1)
 						copy(nf, files)
 						nf[fi] = harness.File{Name: f.Name, Src: progenum.Apply(f.Src, m.Edits)}
@@ -274,7 +291,11 @@ func mutantProgs(ops map[string]bool, only func(name string) bool) func(emit fun
 							pkgName := k
 							nf = append(nf, harness.File{Name: "vm_helpers.go", Src: "package " + pkgName + "\n" + progenum.PairHelpers})
 						}
-						emit(progenum.Prog{ID: fmt.Sprintf("mutant|%s|%s|%d|%s", name, m.Site, mi, m.Op), Fam: "mutant:" + m.Op,
+						fam := famp + m.Op
+						if dev == 2 {
+							fam = "mutant2" // 900+ operator pairs: one family, the operators are in the id
+						}
+						emit(progenum.Prog{ID: fmt.Sprintf("%s|%s|%s|%d|%s", idp, name, m.Site, mi, m.Op), Fam: fam,
 							Path: "github.com/go-critic/go-critic/checkers/testdata/" + name, Files: nf,
 							Meta: map[string]string{"checker": name, "op": m.Op, "site": m.Site}})
 					}
